@@ -246,11 +246,13 @@ Section Tokens.
 
   (** ** 3. [TsvNtTriplesYielder] *)
 
-  (** one line: [inl (Some t)] a triple, [inl None] a discarded line
-      ([error_triples += 1]).  A [ValueError] of the token functions is caught
-      by [except ValueError as ve] whose handler reads [ve.message], which does
-      not exist in Python 3: AttributeError.  The tuple is evaluated left to
-      right. *)
+  (** one line: [inl (Some t)] a triple.  A line that does not split into
+      three tokens is meant to be discarded ([error_triples += 1]), but the
+      message is logged with [log_msg(msg=..., source=...)] whereas the function
+      is [log_msg(verbose, msg, err)]: TypeError -- blank lines included.  A
+      [ValueError] of the token functions is caught by [except ValueError as ve]
+      whose handler reads [ve.message], which does not exist in Python 3:
+      AttributeError.  The tuple is evaluated left to right. *)
   Definition tsv_line (l : str) : option mtriple + cerr :=
     match split c08_tsv_sep (strip l) with
     | [t0; t1; t2] =>
@@ -269,7 +271,7 @@ Section Tokens.
           end
         end
       end
-    | _ => inl None
+    | _ => inr CEType
     end.
 
   Definition rd_of_line (x : option mtriple + cerr) : rd :=
